@@ -1,5 +1,7 @@
 import NixModel.Drive.Common
 import NixModel.Drive.Version
+import NixModel.Drive.State
+import NixModel.Drive.Index
 /-
   nixmodel: reads a trace (op lines with the implementation's recorded result after `=>`),
   replays each op on the Lean model, evaluates the property relations on the implementation's
@@ -7,20 +9,19 @@ import NixModel.Drive.Version
 -/
 open Nix Nix.Proto Nix.Drive
 
-structure DState where
-  dummy : Unit := ()
-
 def step (st : DState) (line : String) : DState × Option String :=
   if line.isEmpty || line.startsWith "#" || line.startsWith "@" then (st, none) else
   let (toks, impl) := splitLine line
   match toks with
   | [] => (st, none)
   | op :: args =>
-    let out : Out :=
-      match Version.handle op args impl with
-      | some o => o
-      | none => .unknown
-    (st, some out.render)
+    if op == "reset" then ({}, none) else
+    match Version.handle op args impl with
+    | some o => (st, some o.render)
+    | none =>
+    match Index.handle st op args impl with
+    | some (st', o) => (st', some o.render)
+    | none => (st, some Out.unknown.render)
 
 partial def loop (h : IO.FS.Stream) (out : IO.FS.Stream) (st : DState) : IO Unit := do
   let line ← h.getLine
